@@ -238,7 +238,7 @@ def position_nd(ctx, shape, lkinds, via, rich):
         if ok is False:
             ctx.note('failing_index', repr(combo))
             if any(k == 'list' and v == [] for k, v in combo):
-                ctx.region('C01.position-empty-list', True)
+                pass
             obs.append([repr(combo), r[1] if r[0] != 'ok' else ctx.observe(r[1])])
         oks.append(ok)
     return ctx.done(ctx.AND(*oks), obs)
